@@ -38,6 +38,8 @@ type TV struct {
 	O  []Mem // sorted by key (code point order == byte order for valid UTF-8)
 	CS []string
 	X  string // detail for nonfinite / foreign
+	Lo *TV    // t = "range": inclusive bounds (numbers)
+	Hi *TV
 }
 
 func cpsToString(v any) (string, error) {
@@ -168,6 +170,23 @@ func fromJSON(v any) (*TV, error) {
 		if big, ok := m["big"].(string); ok {
 			return numTV(big), nil
 		}
+		if ds, ok := m["ds"].([]any); ok {
+			// digit-sequence form of spec/Decimal.tla
+			var sb strings.Builder
+			if neg, _ := m["neg"].(bool); neg {
+				sb.WriteByte('-')
+			}
+			if len(ds) == 0 {
+				sb.WriteByte('0')
+			}
+			for _, d := range ds {
+				dn, _ := d.(json.Number)
+				sb.WriteString(dn.String())
+			}
+			e, _ := m["e"].(json.Number)
+			sb.WriteString("e" + e.String())
+			return numTV(sb.String()), nil
+		}
 		n, _ := m["n"].(json.Number)
 		e, _ := m["e"].(json.Number)
 		ni, ok := new(big.Int).SetString(n.String(), 10)
@@ -218,6 +237,25 @@ func fromJSON(v any) (*TV, error) {
 		}
 		sort.SliceStable(out.O, func(i, j int) bool { return out.O[i].K < out.O[j].K })
 		return out, nil
+	case "range":
+		// magnitudes lo..hi (digit sequences) times 10^e, with a sign
+		mk := func(key string, neg bool) (*TV, error) {
+			sub := map[string]any{"t": "num", "ds": m[key], "neg": neg, "e": m["e"]}
+			return fromJSON(sub)
+		}
+		neg, _ := m["neg"].(bool)
+		lo, err := mk("lo", neg)
+		if err != nil {
+			return nil, err
+		}
+		hi, err := mk("hi", neg)
+		if err != nil {
+			return nil, err
+		}
+		if neg {
+			lo, hi = hi, lo
+		}
+		return &TV{T: "range", Lo: lo, Hi: hi}, nil
 	case "err":
 		arr, _ := m["cs"].([]any)
 		out := &TV{T: t}
@@ -307,6 +345,8 @@ func (v *TV) show() string {
 		return "{" + strings.Join(parts, ",") + "}"
 	case "err":
 		return "error:" + strings.Join(v.CS, "|")
+	case "range":
+		return "[" + v.Lo.show() + " .. " + v.Hi.show() + "]"
 	}
 	return v.T + "(" + v.X + ")"
 }
@@ -488,6 +528,12 @@ func admits(adm []*TV, got *TV) bool {
 		return false
 	}
 	for _, a := range adm {
+		if a.T == "range" {
+			if got.T == "num" && numCmp(a.Lo, got) <= 0 && numCmp(got, a.Hi) <= 0 {
+				return true
+			}
+			continue
+		}
 		if a.T != "err" && eqU(a, got) {
 			return true
 		}
@@ -495,12 +541,46 @@ func admits(adm []*TV, got *TV) bool {
 	return false
 }
 
+// numCmp compares two numbers by value.
+func numCmp(a, b *TV) int {
+	e := a.E
+	if b.E < e {
+		e = b.E
+	}
+	scale := func(v *TV) *big.Int {
+		n := new(big.Int).Set(v.N)
+		if v.E > e {
+			n.Mul(n, new(big.Int).Exp(big.NewInt(10), big.NewInt(int64(v.E-e)), nil))
+		}
+		return n
+	}
+	// avoid astronomically large powers: decide by sign and adjusted exponent first
+	sa, sb := a.N.Sign(), b.N.Sign()
+	if sa != sb {
+		if sa < sb {
+			return -1
+		}
+		return 1
+	}
+	if sa == 0 {
+		return 0
+	}
+	adj := func(v *TV) int { return len(new(big.Int).Abs(v.N).String()) + v.E }
+	if adj(a) != adj(b) {
+		if (adj(a) < adj(b)) == (sa > 0) {
+			return -1
+		}
+		return 1
+	}
+	return scale(a).Cmp(scale(b))
+}
+
 func pinned(adm []*TV) bool {
 	if len(adm) != 1 {
 		return false
 	}
 	a := adm[0]
-	if a.T == "any" {
+	if a.T == "any" || a.T == "range" {
 		return false
 	}
 	if a.T == "err" && len(a.CS) != 1 {
